@@ -39,6 +39,7 @@ var commands = map[string]func([]string){
 	"fold-text":      cmdFoldText,
 	"sql-read":       cmdSQLRead,
 	"sql-cases":      cmdSQLCases,
+	"json-docs":      cmdJSONDocs,
 }
 
 func main() {
